@@ -468,9 +468,36 @@ def big_table_cases(readers=("cursor", "strict")):
                     yield case_dense(rd, DEFAULT_MAX, None, lay), "big-table"
 
 
+def multi_moov_cases(rng, n_random=12, readers=("cursor", "strict")):
+    """several top-level moov boxes of which ONE is malformed - first, middle or last: every moov must be well formed, not only the one
+    whose tables are rewritten (the last)"""
+    f = F()
+    md = box(b"mdat", b"abcdefg")
+    good = simple_moov([(4, [20, 30])])
+    good2 = simple_moov([(8, [21])])
+    udta = box(b"udta", b"x")
+    stbl2 = box(b"stbl", stco([1]) + co64([2]))
+    bads = [box(b"moov", b""), box(b"moov", udta), box(b"moov", box(b"trak", udta)),
+            box(b"moov", box(b"trak", box(b"mdia", box(b"minf", stbl2)))),
+            box(b"moov", box(b"trak", box(b"mdia", box(b"minf", box(b"stbl", stco([1]) + stco([2])))))),
+            box(b"moov", box(b"trak", box(b"mdia", box(b"minf", box(b"stbl", box(b"stco", b"\1\0\0\0" + be32(0))))))),
+            box(b"moov", box(b"trak", box(b"mdia", box(b"minf", box(b"stbl", box(b"stco", b"\0\0\0\0" + be32(5) + be32(1))))))),
+            box(b"moov", box(b"trak", box(b"mdia", box(b"minf", box(b"stbl", box(b"stco", b"\0\0\0\0" + be32(0) + b"zz")))))),
+            box(b"moov", good[8:] + box(b"trak", box(b"mdia", b""))), box(b"moov", good[8:-3] + b"\0\0\0"),
+            box(b"moov", box(b"trak", box(b"mdia", box(b"minf", b"")) + box(b"mdia", box(b"minf", b""))))]
+    for _ in range(n_random):
+        bads.append(box(b"moov", mutate_tree(rng, good[8:])))
+    for bad in bads:
+        for lay in (f + bad + md + good, f + bad + good + md, f + md + bad + good, f + good + md + bad, f + md + good + bad,
+                    f + good + bad + good2 + md, f + md + good + bad + good2):
+            for rd in readers:
+                yield case_dense(rd, DEFAULT_MAX, None, lay), "multi-moov"
+
+
 def standard_stream(run, rewrite_n, mut_n, seq_len, seq_sample=None):
     rng = run.rng
     yield from u64_edge_cases()
+    yield from multi_moov_cases(rng, 6 if run.tier == "quick" else 200, ("cursor",) if run.tier == "quick" else ("cursor", "strict"))
     yield from big_table_cases(("cursor",) if run.tier == "quick" else ("cursor", "strict"))
     yield from big_box_truncations(("cursor", "strict") if run.tier == "quick" else ("cursor", "strict", "lenient"))
     yield from huge_pad_cases()
